@@ -1,4 +1,5 @@
 import PyTrie.Lemmas.MissingProofs
+import PyTrie.Lemmas.MissingPath
 /-! # C07 — missing nodes: operations fail atomically and report the truth
 
 `opGet`, `opTraverse`, `opSetDel` are `get`, `traverse`/`traverse_from`, `set`/`delete` over a store
@@ -78,5 +79,32 @@ theorem set_delete_missing_atomic (Hs : Hashing) (blankRootHash : Hash) (T : Tri
     (opSetDel Hs blankRootHash T key val s).1.pending = [] ∧
     s.store.contains h = false ∧ root = T.root ∧ rk = key :=
   opSetDel_missing_atomic Hs blankRootHash T hc key val s hrs h root rk pre he
+
+/-- every fetch of `_set` is a hashed subtree at a prefix of the key; every fetch of `_delete` is that or
+    the sibling `_normalize_branch_node` must read to collapse a branch on the key's path -/
+theorem set_reads_on_path (Hs : Hashing) (t : Node) (hc : Canon t) (k : Path) (v : Bytes) (h : Hash)
+    (hm : Ev.read h ∈ (setE Hs t k v).2) : OnPath Hs t k h := setE_reads_on_path Hs t hc k v h hm
+
+theorem delete_reads_on_path (Hs : Hashing) (t : Node) (hc : Canon t) (k : Path) (h : Hash)
+    (hm : Ev.read h ∈ (deleteE Hs t k).2) : OnPath Hs t k h ∨ SiblingOnPath Hs t k h :=
+  deleteE_reads_on_path Hs t hc k h hm
+
+/-- **the node reported by a failing `set` / `delete` lies on the requested path** (root, a hashed subtree
+    at a prefix of the key, or — delete — the sibling needed to collapse a branch on that path) -/
+theorem set_delete_missing_on_path (Hs : Hashing) (blankRootHash : Hash) (T : TrieSt) (hc : Canon T.tree) (key : Bytes)
+    (val : Option Bytes) (s : OpSt) (h root rk : Bytes) (pre : Option Path)
+    (he : (opSetDel Hs blankRootHash T key val s).2 = .error (.missingTrieNode h root rk pre)) :
+    h = T.root ∨ OnPath Hs T.tree (nibs key) h ∨ SiblingOnPath Hs T.tree (nibs key) h :=
+  opSetDel_missing_on_path Hs blankRootHash T hc key val s h root rk pre he
+
+/-- **retry converges for `set` / `delete` too**: after supplying the reported node the same call never
+    names that hash again and strictly fewer of its fetches are outstanding -/
+theorem set_delete_retry_progress (Hs : Hashing) (blankRootHash : Hash) (T : TrieSt) (key : Bytes) (val : Option Bytes)
+    (s : OpSt) (h root rk : Bytes) (pre : Option Path) (body : Bytes)
+    (he : (opSetDel Hs blankRootHash T key val s).2 = .error (.missingTrieNode h root rk pre)) :
+    let s' : OpSt := { s with store := { s.store with base := Dict.insert s.store.base h body } }
+    (∀ root' rk' pre', (opSetDel Hs blankRootHash T key val s').2 ≠ .error (.missingTrieNode h root' rk' pre')) ∧
+    (h = T.root ∨ (outstandingOp Hs T key val s'.store).length < (outstandingOp Hs T key val s.store).length) :=
+  opSetDel_retry_progress Hs blankRootHash T key val s h root rk pre body he
 
 end PyTrie.Props.C07
